@@ -2,7 +2,7 @@ SPECIFICATION Spec
 CONSTANTS
   IdLenNat = {0, 30, 31, 40, 64, 8}
   SMaxNat = {0, 1, 5, 50}
-  MaxOpts = 5
+  MaxOpts = 6
   FreeLen = 3
   ConfStdC = TRUE
 INVARIANTS TypeOK LastWins NoNegative DefaultsInScope
